@@ -719,7 +719,7 @@ func init() {
 	register(&PropSpec{
 		ID:         "C16",
 		Level:      "proof",
-		Decided:    "every call site in the library through which an error can enter from an io.Writer, a Visitor/ExtVisitor event, a Folder, or a fold/user function value (the obligations) forwards that error: visitor class - bound, returned unchanged on every path on which it is non-nil, and no further event or sink call on those paths; writer class - every path of an encoder function that performs a write returns a failure when all its writes fail. If all obligations are discharged, then for every stream and every failure index the call that receives the failure returns it up the (statically resolved) call chain to the public entry point. In push mode a failed Parser.Write parks the state machine in its failure state before returning, so that a later Write returns the stored error and delivers nothing more of the failed document (R24 STICKY-FAIL).",
+		Decided:    "every call site in the library through which an error can enter from an io.Writer, a Visitor/ExtVisitor event, a Folder, or a fold/user function value (the obligations) forwards that error: visitor class - bound, returned unchanged on every path on which it is non-nil, and no further event or sink call on those paths; writer class - every path of an encoder function that performs a write returns a failure when all its writes fail. If all obligations are discharged, then for every stream and every failure index the call that receives the failure returns it up the (statically resolved) call chain to the public entry point. In push mode a failed Parser.Write parks the state machine in its failure state before returning, so that a later Write returns the stored error and delivers nothing more of the failed document (R24 STICKY-FAIL). Writer class, precisely: after the first failed write a later sink call is taken to fail only if it must write (must-fail summaries, least fixpoint over the sink set); a callee with a path that writes nothing may return nil, and a path that then returns nil is a violation.",
 		NotDecided: "that user code (Folder.Fold, registered fold functions, the caller's own loop) behaves; that the error VALUE is unchanged when it passes through user code; what a caller does after the library returned the error; one-shot drivers that stop calling events after an error are assumed.",
 		Assumptions: []string{
 			"the caller stops sending events once an event returned an error",
